@@ -2,6 +2,7 @@
 Paths_Trace.tla (trace validation).  Binding: TLC-generated operation
 sequences are stepped through the real PosixPath/WindowsPath objects, the
 projected value is recorded after every call and TLC validates the traces."""
+import os
 import itertools
 import json
 import random
@@ -30,7 +31,7 @@ def cfg(max_raw, max_ops, mode):
 
 # ---------------------------------------------------------------- real code
 def load_impl():
-    sys.path.insert(0, '/repo')
+    sys.path.insert(0, os.environ.get('VERIF_REPO', '/repo'))
     from bfg9000.platforms.posix import PosixPath
     from bfg9000.platforms.windows import WindowsPath
     from bfg9000.path import Root, InstallRoot, DestDir, commonprefix, \
